@@ -1344,6 +1344,21 @@ func c08CheckLong(c c08LongCase) engine.Result {
 				if !bytes.Equal(in, orig) {
 					cmp.failf("pointer-filler", "input modified", "the input bytes were modified")
 				}
+				// the same bytes with another table_id behind the pointer_field: the unknown-table error, for every
+				// pointer_field value (also the ones that read like a table_id themselves, 0xFC = 252)
+				for _, tid := range []byte{0x00, 0x02, 0xC0, 0xFD} {
+					bad := append([]byte(nil), orig...)
+					bad[1+sec.Pointer] = tid
+					res.Evals++
+					var berr error
+					var bobj scte35.SCTE35
+					if engine.Guard(&res, "NewSCTE35", func() { bobj, berr = scte35.NewSCTE35(bad) }) {
+						continue
+					}
+					if berr != gots.ErrUnknownTableID || bobj != nil {
+						cmp.failf("pointer-filler", "foreign table_id", "table_id %#x behind pointer_field %d: error %v (object %v), want ErrUnknownTableID", tid, sec.Pointer, berr, bobj != nil)
+					}
+				}
 				if len(res.Fail) > 8 {
 					return res
 				}
@@ -1583,7 +1598,7 @@ func init() {
 			},
 			&engine.Enum[c08LongCase]{
 				Name: "pointer-filler",
-				Rule: "EVERY pointer_field 0..255 x 6 kinds of skipped bytes (0xFF stuffing, zeros, and four tails of a previous section that read like small or large section lengths when mistaken for a header) x 4 sections (time_signal sections of 40, 187 and 300 bytes, a splice_insert): decode and compare every getter as in decode-fields, Data() == the section, input unmodified",
+				Rule: "EVERY pointer_field 0..255 x 6 kinds of skipped bytes (0xFF stuffing, zeros, and four tails of a previous section that read like small or large section lengths when mistaken for a header) x 4 sections (time_signal sections of 40, 187 and 300 bytes, a splice_insert): decode and compare every getter as in decode-fields, Data() == the section, input unmodified; and the same input with table_id 00/02/C0/FD behind the pointer_field -> ErrUnknownTableID",
 				Gen: func(r *engine.Run, emit func(c08LongCase)) {
 					for p := 0; p <= 255; p++ {
 						emit(c08LongCase{Kind: "pointer-filler", From: p})
